@@ -60,6 +60,16 @@ def hint(delimited: bool, O: int, extra: int, lead_empty: int, pad: int) -> bool
     return fin(M, ok, delimited=delimited, O=O, extra=extra, lead_empty=lead_empty, pad=pad)
 
 
+def framing_is(data, delimited):
+    """the bytes really ARE in the requested mode: length-prefixed frames, resp. one bare frame (read by the reference)"""
+    from vpkg.ref import jelly as R
+    try:
+        R.decode(data, delimited=delimited)
+        return True
+    except Exception:  # noqa: BLE001
+        return False
+
+
 ITEMS = {1: [("T", alpha.I_AX, alpha.I_AY, alpha.L_DT1), ("T", alpha.I_AX, alpha.I_URN, alpha.L_LANG)],
          2: [("Q", alpha.I_AX, alpha.I_AY, alpha.L_DT1, alpha.DEF), ("Q", alpha.I_AX, alpha.I_URN, alpha.L_LANG, alpha.B1)]}
 
@@ -79,19 +89,22 @@ def pair(namelen: int, k: int, gen: bool, star: bool) -> bool:
         items = ITEMS[phys][:1] if k == 1 else ITEMS[phys]
         want = [norm_item(i) for i in items]
         res = []
+        modes_ok = []
         for delim in (True, False):
             opts = pj.make_options(phys, delimited=delim, stream_name=name, names=P["names"], prefixes=P["prefixes"], datatypes=P["datatypes"],
                                    generalized=bool(gen), rdf_star=bool(star))
             if integ == "generic":
                 data = pj.gen_serialize(items, phys, opts, entry="flat_frames")
                 with notrace():
+                    modes_ok.append(framing_is(bytes(data), delim))
                     res.append([norm_item(i) for i in pj.gen_parse(bytes(data))])
             else:
                 data = pj.rdf_serialize(items, phys, opts, entry=P.get("rentry", "graph_serialize"))
                 with notrace():
+                    modes_ok.append(framing_is(bytes(data), delim))
                     res.append(sorted(norm_item(i) for i in pj.rdf_parse(bytes(data), entry="to_graph")))
                 want = sorted(want)
-        ok = res[0] == want and res[1] == want
+        ok = res[0] == want and res[1] == want and all(modes_ok)
         if P.get("twin"):
             ok = False
     except Exception:  # noqa: BLE001
